@@ -144,6 +144,25 @@ func intakeProducer(repo string) ([]byte, []string) {
 			notes[v.fact] = v.recv + ".Verify mentions ." + v.field
 		}
 	}
+	// --- inventory of the Verify methods: the mandatory signature of each signed message type is
+	// deserialized and verified unconditionally (only the CrossChainMsg signatures are optional) ---
+	if mt != nil {
+		for _, v := range []struct{ recv, arg, fact string }{
+			{"blockProposalMsg", "sigdata", "verify_proposal_sig_unconditional"},
+			{"blockEndorseMsg", "msg.EndorserSig", "verify_endorse_sig_unconditional"},
+			{"blockCommitMsg", "msg.CommitterSig", "verify_commit_sig_unconditional"},
+			{"blockSubmitMsg", "msg.SubmitMsgSig", "verify_submit_sig_unconditional"},
+		} {
+			m := findMethod(mt, v.recv, "Verify")
+			if m == nil {
+				errs = append(errs, "msg_types.go: method "+v.recv+".Verify not found")
+				continue
+			}
+			ok, why := mandatorySigChecked(mt, m.Body, v.arg, show, 1)
+			facts[v.fact] = ok
+			notes[v.fact] = v.recv + ".Verify: " + why
+		}
+	}
 	// --- pool: newBlockCommitment / newBlockEndorsement / addBlockEndorsementLocked ---
 	if bp != nil {
 		facts["pool_commit_verifies"] = false
@@ -169,7 +188,9 @@ func intakeProducer(repo string) ([]byte, []string) {
 	b.WriteString("From Coq Require Import Bool.\n\n")
 	for _, name := range []string{"recv_verifies_sender_sig", "recv_key_is_sender", "recv_proposal_key_is_proposer",
 		"commit_verify_reads_endorsers_sig", "commit_verify_reads_committer", "endorse_verify_reads_endorser",
-		"on_msg_commit_verifies", "on_msg_endorse_verifies", "pool_commit_verifies"} {
+		"on_msg_commit_verifies", "on_msg_endorse_verifies", "pool_commit_verifies",
+		"verify_proposal_sig_unconditional", "verify_endorse_sig_unconditional", "verify_commit_sig_unconditional",
+		"verify_submit_sig_unconditional"} {
 		v, ok := facts[name]
 		if !ok {
 			fmt.Fprintf(&b, "Definition translator_broken_%s : unit := tt.\n", name)
@@ -249,4 +270,118 @@ func verificationLike(cc *ast.CaseClause, show func(ast.Node) string) string {
 		return true
 	})
 	return why
+}
+
+// mandatorySigChecked: among the top-level statements of body (not nested in any if/for/switch),
+// `signature.Deserialize(<arg>)` is called with an error return on failure and
+// `if !signature.Verify(pub, ..., sig) { return <error> }` follows, and no top-level statement
+// before them can `return nil`. When the body instead hands <arg> to a package-level helper at top
+// level (`if err := h(.., <arg>, ..); err != nil { return err }` or `return h(..)`), the helper's
+// body is examined the same way for the corresponding parameter (one level).
+func mandatorySigChecked(f *ast.File, body *ast.BlockStmt, arg string, show func(ast.Node) string, depth int) (bool, string) {
+	deser, verif := false, false
+	for _, st := range body.List {
+		// an early `return nil` (possibly guarded) before the check is complete makes it conditional
+		if !(deser && verif) {
+			if ifs, ok := st.(*ast.IfStmt); ok && returnsNil(ifs.Body) {
+				return false, "`" + show(ifs.Cond) + "` returns nil before the signature over " + arg + " is verified"
+			}
+		}
+		switch x := st.(type) {
+		case *ast.AssignStmt:
+			if len(x.Rhs) == 1 {
+				if c, ok := x.Rhs[0].(*ast.CallExpr); ok && show(c.Fun) == "signature.Deserialize" && len(c.Args) == 1 && show(c.Args[0]) == arg {
+					deser = true
+				}
+			}
+		case *ast.IfStmt:
+			if u, ok := x.Cond.(*ast.UnaryExpr); ok && u.Op == token.NOT && deser {
+				if c, ok := u.X.(*ast.CallExpr); ok && show(c.Fun) == "signature.Verify" && len(c.Args) == 3 &&
+					show(c.Args[0]) == "pub" && show(c.Args[2]) == "sig" && returnsError(x.Body) {
+					verif = true
+				}
+			}
+			if depth > 0 && x.Init != nil {
+				if as, ok := x.Init.(*ast.AssignStmt); ok && len(as.Rhs) == 1 {
+					if ok2, why, hit := viaHelper(f, as.Rhs[0], arg, show, depth); hit && show(x.Cond) == "err != nil" && returnsError(x.Body) {
+						return ok2, why
+					}
+				}
+			}
+		case *ast.ReturnStmt:
+			if depth > 0 && len(x.Results) == 1 {
+				if ok2, why, hit := viaHelper(f, x.Results[0], arg, show, depth); hit {
+					return ok2, why
+				}
+			}
+		}
+		if deser && verif {
+			return true, "signature.Deserialize(" + arg + ") and signature.Verify at top level, unconditionally"
+		}
+	}
+	return false, "no unconditional signature.Deserialize(" + arg + ") + signature.Verify at the top level of the body"
+}
+
+func viaHelper(f *ast.File, e ast.Expr, arg string, show func(ast.Node) string, depth int) (ok bool, why string, hit bool) {
+	c, isCall := e.(*ast.CallExpr)
+	if !isCall {
+		return false, "", false
+	}
+	id, isIdent := c.Fun.(*ast.Ident)
+	if !isIdent {
+		return false, "", false
+	}
+	idx := -1
+	for i, a := range c.Args {
+		if show(a) == arg {
+			idx = i
+		}
+	}
+	if idx < 0 {
+		return false, "", false
+	}
+	for _, d := range f.Decls {
+		fd, isFn := d.(*ast.FuncDecl)
+		if !isFn || fd.Recv != nil || fd.Name.Name != id.Name || fd.Body == nil {
+			continue
+		}
+		var names []string
+		for _, fl := range fd.Type.Params.List {
+			for _, n := range fl.Names {
+				names = append(names, n.Name)
+			}
+		}
+		if idx >= len(names) {
+			return false, "helper " + id.Name + ": parameter not found", true
+		}
+		// inside the helper the key parameter is expected to be called pub
+		ok, why := mandatorySigChecked(f, fd.Body, names[idx], show, depth-1)
+		return ok, "via helper " + id.Name + ": " + why, true
+	}
+	return false, "helper " + id.Name + " not found in msg_types.go", true
+}
+
+func returnsNil(b *ast.BlockStmt) bool {
+	for _, st := range b.List {
+		if r, ok := st.(*ast.ReturnStmt); ok && len(r.Results) == 1 {
+			if id, ok := r.Results[0].(*ast.Ident); ok && id.Name == "nil" {
+				return true
+			}
+		}
+	}
+	return false
+}
+
+func returnsError(b *ast.BlockStmt) bool {
+	if len(b.List) == 0 {
+		return false
+	}
+	r, ok := b.List[len(b.List)-1].(*ast.ReturnStmt)
+	if !ok || len(r.Results) != 1 {
+		return false
+	}
+	if id, ok := r.Results[0].(*ast.Ident); ok && id.Name == "nil" {
+		return false
+	}
+	return true
 }
